@@ -259,8 +259,10 @@ class VBuf(V):
 class VStr(V):
     """str: literal (s), symbolic sequence of code points (z), or unknown with a known literal prefix; `cls` tags
     instances of str subclasses of the repo (Fingerprint)"""
-    def __init__(self, s=None, z=None, prefix=None, cls=None):
-        self.s, self.z, self.prefix, self.cls = s, z, prefix, cls
+    def __init__(self, s=None, z=None, prefix=None, cls=None, cp=False):
+        # cp=True: z is the sequence of CODE POINTS (from chr(), bytes.decode('latin-1')); cp=False: a caller-declared symbolic str,
+        # represented by its UTF-8 octets (what str.encode() yields)
+        self.s, self.z, self.prefix, self.cls, self.cp = s, z, prefix, cls, cp
 
 
 class VNone(V):
@@ -1406,7 +1408,7 @@ class Exec:
                 L = z3.Length(o.z)
                 a = self.norm_idx(lo, L) if lo is not None else z3.IntVal(0)
                 b = self.norm_idx(hi, L) if hi is not None else L
-                return VStr(z=z3.Extract(o.z, a, z3.If(b > a, b - a, 0)))
+                return VStr(z=z3.Extract(o.z, a, z3.If(b > a, b - a, 0)), cp=o.cp)
             raise ToolLimit('slice of symbolic str')
         S = self.seq(o, st)
         L = z3.Length(S)
@@ -2000,7 +2002,7 @@ class Exec:
             if name in ('repr', 'format', 'hex', 'bin'):
                 return [(st, VStr(s='<fmt>'))]
             if name == 'chr':
-                return [(st, VStr(z=z3.Unit(self.as_int(A[0]))))]
+                return [(st, VStr(z=z3.Unit(self.as_int(A[0])), cp=True))]
             if name == 'ord' and isinstance(A[0], VStr):
                 return [(st, VInt(self.strseq(A[0])[0]))]
             if name == 'abs':
@@ -2096,7 +2098,7 @@ class Exec:
             if name == 'decode':
                 enc = A[0].s if A and isinstance(A[0], VStr) else (kws.get('encoding').s if kws.get('encoding') is not None else 'utf-8')
                 if enc in ('latin-1', 'latin1', 'iso-8859-1', 'charmap'):
-                    return [(st, VStr(z=self.seq(b, st)))]       # identity embedding of octets into code points 0..255
+                    return [(st, VStr(z=self.seq(b, st), cp=True))]       # identity embedding of octets into code points 0..255
                 F = z3.Function('DECODE[%s]' % enc, BYTES, BYTES)
                 errors = A[1].s if len(A) > 1 and isinstance(A[1], VStr) else (kws.get('errors').s if kws.get('errors') is not None else 'strict')
                 if errors != 'strict' or self.spec_depth > 0:
@@ -2112,6 +2114,27 @@ class Exec:
         if isinstance(b, VStr) and name == 'encode':
             if b.s is not None and isinstance(b.s, str):
                 return [(st, VBytes(self.lit_bytes(b.s.encode(A[0].s if A else 'utf-8'))))]
+            codec = (A[0].s if A and isinstance(A[0], VStr) else 'utf-8').lower().replace('_', '-')
+            if getattr(b, 'cp', False) and self.spec_depth == 0:
+                # z holds code points
+                if codec in ('latin-1', 'latin1', 'iso-8859-1', 'charmap'):
+                    res = []
+                    k = fresh('k')
+                    inrange = self.entails(st, z3.Implies(z3.And(k >= 0, k < z3.Length(b.z)), z3.And(b.z[k] >= 0, b.z[k] < 256)))
+                    if inrange:
+                        return [(st, VBytes(b.z))]
+                    raise ToolLimit('latin-1 encoding of code points not known to be below 256')
+                if codec in ('utf-8', 'utf8'):
+                    ENC = z3.Function('UTF8_OF_CODEPOINTS', BYTES, BYTES)
+                    t = ENC(b.z)
+                    # RFC 3629 for a single code point (what the contracts here need); longer strings: length bounds only
+                    c = b.z[0]
+                    st.facts += [z3.Length(t) >= z3.Length(b.z), z3.Length(t) <= 4 * z3.Length(b.z),
+                                 z3.Implies(z3.And(z3.Length(b.z) == 1, c >= 0, c < 128), t == z3.Unit(c)),
+                                 z3.Implies(z3.And(z3.Length(b.z) == 1, c >= 128, c < 2048),
+                                            t == z3.Concat(z3.Unit(192 + c / 64), z3.Unit(128 + c % 64)))]
+                    return [(st, VBytes(t))]
+                raise ToolLimit('str.encode(%s) of code points' % codec)
             return [(st, VBytes(b.z))]   # caller-declared: symbolic str modelled as its utf-8 bytes
         if isinstance(b, VStr) and name in ('startswith', 'endswith') and isinstance(A[0], VStr) and isinstance(A[0].s, str):
             if isinstance(b.s, str):
